@@ -1,6 +1,7 @@
 // U1 — zvt_builder core: length.rs, encoding.rs, lib.rs (DESIGN.md §5.2, §6 C01/C02/C14/C16/C17)
 // Everything between `//@ fn … //@ end` is real code taken from /repo on every run.
 #![allow(unused_imports, unused_variables, dead_code, unused_mut, non_snake_case, unused_parens, unused_braces)]
+extern crate alloc;
 use vstd::prelude::*;
 verus! {
 
